@@ -45,6 +45,8 @@ def word_lemma(word, target, immediate, arity=3):
 
 def run(L, tier, only=None):
     covered, not_covered = [], []
+    L.ex.path_budget = 2500 if tier == "quick" else 40000
+    L.lemma_time_budget = 90 if tier == "quick" else 600
     for loader in LOADERS:
         try:
             wm = word_map(L.ex, loader)
@@ -71,3 +73,5 @@ def run(L, tier, only=None):
                 covered.append(w)
     L.c08_covered = covered
     L.c08_not_covered = not_covered
+    L.ex.path_budget = None
+    L.samples.append({"engine": "e2", "words_covered": covered, "words_not_covered": [list(x) for x in not_covered][:200]})
